@@ -40,6 +40,11 @@ m = re.search(r"place(?:d)? (?:it )?(?:at|under|in) `([^`]+)`", readme)
 place = m.group(1) if m else None
 cm = re.search(r"(cargo test[^\n`]*--test demo[^\n`]*)", readme)
 cmd = cm.group(1).strip() if cm else None
+if not place and cmd:
+    pk = re.search(r"-p (\S+)", cmd)
+    tn = re.search(r"--test (\S+)", cmd)
+    if pk and tn:
+        place = f"{pk.group(1)}/tests/{tn.group(1)}.rs"
 meta = {"id": f"{owner}-{name}", "property": prop, "source": f"independent sub-agent {owner} (given only the property text and its own git worktree)", "demo_place": place, "demo_cmd": cmd}
 if not place or not cmd or not os.path.exists(f"{cdir}/patch.diff") or not os.path.exists(f"{cdir}/demo.rs"):
     meta["status"] = "incomplete-delivery"
